@@ -91,6 +91,20 @@ def alloc_sub(chk, rng, w, wid, mode, plan=None):
             {"k": "r", "e": ["m", V("q"), "allocate", args, kw]},
             {"k": "after", "e": V("q")},
             {"k": "again", "e": ["m", V("q"), "allocate", args, kw]}]
+    # what the portions are worth elsewhere: each converted to another unit
+    # of the type, and their sum (the portions are adjusted after they were
+    # built; nothing derived from an amount before may be used afterwards)
+    tname_ = w.units[u].tname
+    others_ = [uu.sym for uu in w.units_of(tname_)
+               if uu.sym != u and w.types[tname_].has_ref]
+    v_other = rng.choice(others_) if others_ else None
+    if v_other is not None:
+        body.append({"id": "al2", "e": ["m", V("q"), "allocate", args, kw]})
+        body.append({"k": "pconv", "e": ["l", [
+            ["m", ["idx", ["idx", V("al2"), 0], i_], "convert",
+             [U(v_other)], {}] for i_ in range(n)]]})
+        body.append({"k": "psrc", "e": ["idx", V("al2"), 0]})
+        body.append({"k": "psum", "e": ["sum", ["idx", V("al2"), 0]]})
     steps = [{"setmode": mode, "body": body}]
     info = dict(world=wid, unit=u, x=str(x), ratios=[str(v) for v in rvals],
                 rkind=rkind, disperse=disperse, mode=mode)
@@ -119,6 +133,27 @@ def alloc_sub(chk, rng, w, wid, mode, plan=None):
             return
         portions, rem = r["items"][0]["items"], r["items"][1]
         bad = []
+        pc, psrc = obs.get("pconv"), obs.get("psrc")
+        if v_other is not None and pc is not None and psrc is not None:
+            if pc.get("k") != "T" or psrc.get("k") != "T":
+                bad.append("converting the portions to %s failed: %s" %
+                           (v_other, brief(pc)))
+            else:
+                chk.count("portions converted to another unit")
+                fu, fv = w.units[u].factor, w.units[v_other].factor
+                for a_, b_ in zip(psrc["items"], pc["items"]):
+                    if b_.get("k") != "Q" or b_["u"] != v_other or \
+                            val(b_) * fv != val(a_) * fu:
+                        bad.append("portion %s converts to %s" %
+                                   (brief(a_), brief(b_)))
+                        break
+                ps_ = obs.get("psum", {})
+                tot_ = sum(val(a_) for a_ in psrc["items"])
+                if ps_.get("k") != "Q" or val(ps_) != tot_ or \
+                        ps_["u"] != u:
+                    bad.append("the sum of the portions is %s, their "
+                               "amounts add up to %s %s" % (brief(ps_), tot_,
+                                                            u))
         if len(portions) != n:
             bad.append("%d portions for %d ratios" % (len(portions), n))
         for p in portions + [rem]:
